@@ -85,9 +85,18 @@ PairForms(x, y) == { File1(<<Text(<<P(x), S(" / "), P(y)>>)>>),
                      File1(<<Elem("v", <<Attr("class", "", MV(<<S("c "), P(x), S(" "), P(y)>>))>>, <<>>)>>),
                      File1(<<If(<<[c |-> EV(Bin("===", x, y)), ch |-> <<Elem("y", <<>>, <<>>)>>]>>, TRUE, <<Elem("n", <<>>, <<>>)>>)>>),
                      File1(<<Text(<<P(Cond(Id("t"), x, y))>>)>>) }
+(* object literals merging several spread sources: a change marked on ANY of them - as a whole or on one member - counts *)
+DefS == [n |-> "s", ch |-> <<Text(<<S("["), P(Id("p")), S("|"), P(Id("q")), S("|"), P(Id("r")), S("|"), P(Id("k")), S("]")>>)>>]
+SpreadObjs == { Obj(<<Spread(Id("o")), Spread(Id("o2"))>>), Obj(<<Spread(Id("o2")), Spread(Id("o"))>>),
+                Obj(<<Spread(Id("o")), Spread(Id("o2")), Named("k", EA)>>), Obj(<<Named("k", EB), Spread(Id("o")), Spread(Id("o2"))>>),
+                Obj(<<Spread(Id("o")), Named("k", EA), Spread(Id("o2"))>>) }
+SpreadForms(e) == { << [path |-> "a", imports |-> <<>>, wxs |-> <<>>, defs |-> <<DefS>>, root |-> <<TmplIs(SV("s"), EV(e))>>] >>,
+                    File1(<<Elem("v", <<Attr("plain", "obj", EV(Mem(e, "p"))), Attr("plain", "r", EV(Mem(e, "r")))>>, <<>>)>>),
+                    File1(<<Text(<<P(Mem(e, "q")), S("/"), P(Mem(e, "r"))>>)>>) }
 UP == UNION { PairForms(xy[1], xy[2]) : xy \in {z \in DepPaths \X DepPaths : z[1] # z[2]} }
+      \cup UNION { SpreadForms(e) : e \in SpreadObjs }
 DP == VO(<< <<"a", VI(0)>>, <<"b", VI(1)>>, <<"t", VB(TRUE)>>, <<"s", VS("p")>>,
-            <<"o", VO(<< <<"p", VS("op")>>, <<"q", VS("oq")>> >>)>>,
+            <<"o", VO(<< <<"p", VS("op")>>, <<"q", VS("oq")>> >>)>>, <<"o2", VO(<< <<"r", VS("o2r")>> >>)>>,
             <<"l", VA(<<VS("l0"), VS("l1"), VS("l2")>>)>>,
             <<"m", VA(<<VO(<< <<"v", VS("m0")>> >>), VO(<< <<"v", VS("m1")>> >>), VO(<< <<"v", VS("m2")>> >>)>>)>> >>)
 Alt(cur, x, y) == IF cur = x THEN y ELSE x
@@ -99,7 +108,11 @@ UPEdits(d) ==
                  [p |-> <<"m", "0", "v">>, v |-> Alt(GetS(m.xs[1], "v"), VS("x0"), VS("y0"))],
                  [p |-> <<"m", "1", "v">>, v |-> Alt(GetS(m.xs[2], "v"), VS("x1"), VS("y1"))],
                  [p |-> <<"a">>, v |-> Alt(GetS(d, "a"), VI(2), VI(0))], [p |-> <<"b">>, v |-> Alt(GetS(d, "b"), VI(0), VI(1))],
-                 [p |-> <<"s">>, v |-> Alt(GetS(d, "s"), VS("q"), VS("p"))], [p |-> <<"t">>, v |-> VB(~GetS(d, "t").b)] }
+                 [p |-> <<"s">>, v |-> Alt(GetS(d, "s"), VS("q"), VS("p"))], [p |-> <<"t">>, v |-> VB(~GetS(d, "t").b)],
+                 (* whole objects replaced: the covering marks the object itself (`{o: true}`) *)
+                 [p |-> <<"o">>, v |-> Alt(o, VO(<< <<"p", VS("P2")>>, <<"q", VS("Q2")>> >>), VO(<< <<"p", VS("P3")>> >>))],
+                 [p |-> <<"o2">>, v |-> Alt(GetS(d, "o2"), VO(<< <<"r", VS("R2")>> >>), VO(<< <<"r", VS("R3")>>, <<"p", VS("P9")>> >>))],
+                 [p |-> <<"o2", "r">>, v |-> Alt(GetS(GetS(d, "o2"), "r"), VS("nr"), VS("kr"))] }
     IN { <<e>> : e \in one }
 
 (* l-value paths under update (C11): bindings whose path depends on data - a dynamic key, a conditional between data
